@@ -39,16 +39,17 @@ import (
 var signals = []string{"CS:BTC-USD", "CS:ETH-USD", "CS:BAND-USD", "CS:ATOM-USD", "A", strings.Repeat("Z", 32)}
 
 type gen struct {
-	h         *tssworld.Hist
-	run       *sim.Run
-	extremes  bool
-	tunnels   uint64
-	dkg       map[tss.GroupID][]*tssworld.Member
-	lastParam string
-	msgKinds  map[string]bool
-	sweep     *sweepSpec
-	swept     bool
-	bringUp   int
+	h                  *tssworld.Hist
+	run                *sim.Run
+	extremes           bool
+	tunnels            uint64
+	regime, regimeLeft int
+	dkg                map[tss.GroupID][]*tssworld.Member
+	lastParam          string
+	msgKinds           map[string]bool
+	sweep              *sweepSpec
+	swept              bool
+	bringUp            int
 }
 
 // ---------------------------------------------------------------------------------------------
@@ -472,6 +473,30 @@ func (g *gen) extra(h *tssworld.Hist, ops *[]*tssworld.TxRec) {
 			}
 		}
 	}
+	// price regimes: for a stretch of blocks every validator reports prices at one end of the uint64 range, so that
+	// aggregated prices (and everything derived from a ratio of consecutive prices) jump between 1 and ~2^64
+	if g.regimeLeft == 0 && r.Chance(1, 12) {
+		g.regime, g.regimeLeft = 1+r.Intn(2), r.Range(3, 8)
+	}
+	if g.regimeLeft > 0 {
+		g.regimeLeft--
+		for _, v := range w.Vals {
+			var sps []feedstypes.SignalPrice
+			for _, f := range w.App.FeedsKeeper.GetCurrentFeeds(ctx).Feeds {
+				p := uint64(r.Range(1, 3))
+				if g.regime == 2 {
+					p = ^uint64(0) - uint64(r.Intn(1000))
+				}
+				sps = append(sps, feedstypes.NewSignalPrice(feedstypes.SIGNAL_PRICE_STATUS_AVAILABLE, f.SignalID, p))
+			}
+			if len(sps) > 0 {
+				add("feeds:submit-extreme", v, feedstypes.NewMsgSubmitSignalPrices(v.Val.String(), w.Time.Unix(), sps))
+			}
+		}
+		if g.regimeLeft == 0 {
+			g.run.Count("price-regime:"+map[int]string{1: "tiny", 2: "near-2^64"}[g.regime]+"-ended", 1)
+		}
+	}
 	n := r.Range(0, 6)
 	for i := 0; i < n; i++ {
 		switch r.Intn(24) {
@@ -752,7 +777,7 @@ func main() {
 		run.Count("msg-types-exercised", len(ks))
 		run.Extra("msg_types", ks)
 	}
-	for _, c := range []string{"params:accepted", "params:rejected-by-validation", "authority:transition-proposed", "blocks-compared-across-replicas", "sweep:param-values-accepted", "replica-restarted-from-db", "checktx-on-primary-only", "params:executed-then-rolled-back"} {
+	for _, c := range []string{"params:accepted", "params:rejected-by-validation", "authority:transition-proposed", "blocks-compared-across-replicas", "sweep:param-values-accepted", "replica-restarted-from-db", "checktx-on-primary-only", "params:executed-then-rolled-back", "price-regime:tiny-ended", "price-regime:near-2^64-ended", "tx:feeds:submit-extreme:ok"} {
 		run.Require(c, 1)
 	}
 	run.Require("msg-types-exercised", 33) // 30 band Msg types by tx + bank/staking; the other 9 (UpdateParams x7 incl. oracle by authority, TransitionGroup, ForceTransitionGroup) go through the authority path
